@@ -383,6 +383,10 @@ class Resource(object):
                 frag = frag[2:] if frag.startswith('//') else frag
                 return self.uuid_dict[frag]
         result = None
+        # the fragment of a metamodel element starts with '#': the root
+        # number, if any, comes after it
+        if fragment.startswith('#'):
+            fragment = fragment[1:]
         root_number, fragment = self.extract_rootnum_and_frag(fragment)
         root = self.contents[root_number]
         result = self._navigate_from(fragment, root)
